@@ -7,7 +7,9 @@ import (
 	"fmt"
 	"sort"
 	"strings"
+	"sync"
 	"testing"
+	"time"
 
 	"github.com/apparentlymart/go-versions/versions"
 	"github.com/hashicorp/go-slug/sourceaddrs"
@@ -26,9 +28,11 @@ const nFinders = 2
 type Case struct {
 	World  world.World `json:"world"`
 	Tracer string      `json:"tracer"` // full | none | partial:<bits>
+	// the Add calls are made from goroutines of their own, a few hundred microseconds apart
+	Concurrent bool `json:"concurrent,omitempty"`
 }
 
-var subOnce = ev.Register("once", func(c Case) error { return checkOnce(c.World, c.Tracer) })
+var subOnce = ev.Register("once", func(c Case) error { return checkOnce(c.World, c.Tracer, c.Concurrent) })
 
 func contentOf(w world.World, pkg string) string {
 	for _, p := range w.Remotes {
@@ -68,7 +72,7 @@ func shape(w world.World, exp world.Expect) string {
 	return ""
 }
 
-func checkOnce(w world.World, tracerMode string) error {
+func checkOnce(w world.World, tracerMode string, concurrent bool) error {
 	exp := world.Reference(w, nFinders)
 	if exp.Error != "" {
 		ev.Label("reference-predicts-error")
@@ -88,7 +92,34 @@ func checkOnce(w world.World, tracerMode string) error {
 		return fmt.Errorf("harness: %v", err)
 	}
 	ctx := h.Context(tracerMode)
+	if concurrent {
+		// the same work, asked for from several goroutines at once: still done once
+		h.OnBoundary = func(string) { time.Sleep(100 * time.Microsecond) }
+		results := make([]world.CallResult, len(w.Script))
+		var wg sync.WaitGroup
+		for i := range w.Script {
+			wg.Add(1)
+			go func(i int) {
+				defer wg.Done()
+				time.Sleep(time.Duration(150*i) * time.Microsecond)
+				results[i] = run.DoCall(ctx, w.Script[i])
+			}(i)
+		}
+		wg.Wait()
+		h.OnBoundary = nil
+		for i, res := range results {
+			if res.Panicked != nil {
+				return fmt.Errorf("concurrent Add call %+v panicked: %v", w.Script[i], res.Panicked)
+			}
+			if res.Diags.HasErrors() {
+				return fmt.Errorf("fault-free build (concurrent Add calls) reported errors for %+v: %v", w.Script[i], diagStrings(res))
+			}
+		}
+	}
 	for _, c := range w.Script {
+		if concurrent {
+			break
+		}
 		res := run.DoCall(ctx, c)
 		if h.Overbudget {
 			return fmt.Errorf("the build does not terminate: more than %d callbacks for a closure of %d artifacts (last events: %v)", h.Budget, len(exp.Analysed), tailEvents(h.Log, 6))
@@ -101,7 +132,7 @@ func checkOnce(w world.World, tracerMode string) error {
 		}
 	}
 	if s := shape(w, exp); s != "" {
-		ev.NonTrivial(Case{w, tracerMode}, s)
+		ev.NonTrivial(Case{w, tracerMode, concurrent}, s)
 	}
 	// ---- counts
 	fetches := map[string]int{}
@@ -217,7 +248,7 @@ func TestPropOnce(t *testing.T) {
 		case 1, 2:
 			mode = fmt.Sprintf("partial:%d", rapid.IntRange(1, 2047).Draw(t, "bits"))
 		}
-		return Case{World: w, Tracer: mode}
+		return Case{World: w, Tracer: mode, Concurrent: rapid.IntRange(0, 3).Draw(t, "concurrent") == 0}
 	})
 }
 
@@ -303,7 +334,7 @@ func TestExhaustiveGraphs(t *testing.T) {
 					continue
 				}
 				mode := []string{"full", "none", "partial:2", "partial:18"}[idx%4]
-				subOnce.Do(Case{World: smallWorld(n, edges, separate, sc), Tracer: mode})
+				subOnce.Do(Case{World: smallWorld(n, edges, separate, sc), Tracer: mode, Concurrent: idx%5 == 0})
 			}
 		}
 	}
